@@ -127,7 +127,7 @@ def render(style, vals):
 
 
 STYLES = ['empty', 'comments', 'one-key', 'all', 'blanks', 'semicolon', 'no-transport', 'tpm-only', 'pib-only', 'no-pib']
-STORES = ['scheme-only', 'absolute', 'rel-conf', 'rel-cwd', 'missing', 'abs-hash', 'abs-semicolon', 'abs-percent', 'abs-colon']
+STORES = ['scheme-only', 'absolute', 'rel-conf', 'rel-cwd', 'missing', 'empty-value', 'abs-hash', 'abs-semicolon', 'abs-percent', 'abs-colon']
 ODD = {'abs-hash': ' #2', 'abs-semicolon': ' ;old', 'abs-percent': '%b 100%', 'abs-colon': ':b'}      # existing directories with such names
 
 
@@ -135,6 +135,8 @@ def store_value(kind, which, tag):
     scheme = 'pib-sqlite3' if which == 'pib' else 'tpm-file'
     if kind == 'scheme-only':
         return scheme
+    if kind == 'empty-value':
+        return ''           # the variable / the key is there, with nothing in it: that is the value
     if kind == 'absolute':
         return f'{scheme}:/data/{which}-{tag}'
     if kind in ODD:
@@ -158,7 +160,7 @@ def build_world(envmask, filemask, style, store, defaults_exist, old_sock):
             filevals[path] = present
             dirs.add(posixpath.dirname(path))
     env = {}
-    envvals = {'transport': 'udp://env.example:6000', 'pib': store_value(store, 'pib', 'env'), 'tpm': store_value(store, 'tpm', 'env')}
+    envvals = {'transport': '' if store == 'empty-value' else 'udp://env.example:6000', 'pib': store_value(store, 'pib', 'env'), 'tpm': store_value(store, 'tpm', 'env')}
     for j, key in enumerate(('transport', 'pib', 'tpm')):
         if envmask >> j & 1:
             env[f'NDN_CLIENT_{key.upper()}'] = envvals[key]
@@ -244,6 +246,10 @@ def run_conf(world):
         kc = with_vfs(vos, lambda: cc.default_keychain(got['pib'], got['tpm']))
         if kc.kind != 'pib' or kc.args[0] != posixpath.join(got['pib'].partition(':')[2], 'pib.db') or kc.args[1].args[0] != got['tpm'].partition(':')[2]:
             viol.append(('C20|conf|default_keychain-paths', f'default_keychain opened {kc.args[0]!r} / {kc.args[1].args[0]!r} for {got}'))
+    except ValueError as e:
+        # an unknown (here: empty) scheme is refused
+        if got['pib'].partition(':')[0] == 'pib-sqlite3' and got['tpm'].partition(':')[0] == 'tpm-file':
+            viol.append(('C20|conf|default_keychain-raises:ValueError', f'{e!r} for {got}'))
     except Exception as e:  # noqa
         viol.append((f'C20|conf|default_keychain-raises:{type(e).__name__}', f'{e!r} for {got}'))
     return viol, (src['transport'], src['pib'], src['tpm'])
@@ -264,7 +270,7 @@ def conf_worlds():
 
 # -- default_face ---------------------------------------------------------------------------------------------
 FACE_URIS = [
-    ('unix:///run/nfd/nfd.sock', ('unix', '/run/nfd/nfd.sock')), ('unix:///tmp/x.sock', ('unix', '/tmp/x.sock')),
+    ('unix:///run/nfd/nfd.sock', ('unix', '/run/nfd/nfd.sock')), ('unix:/run/nfd/nfd.sock', ('unix', '/run/nfd/nfd.sock')), ('unix:///tmp/x.sock', ('unix', '/tmp/x.sock')),
     ('tcp://127.0.0.1', ('tcp', '127.0.0.1', 6363)), ('tcp://127.0.0.1:7000', ('tcp', '127.0.0.1', 7000)),
     ('tcp4://example.org:6363', ('tcp', 'example.org', 6363)), ('tcp4://example.org', ('tcp', 'example.org', 6363)),
     ('tcp6://[::1]:6363', ('tcp', '::1', 6363)), ('tcp6://[::1]', ('tcp', '::1', 6363)), ('tcp6://[2001:db8::2]:7000', ('tcp', '2001:db8::2', 7000)),
